@@ -26,7 +26,7 @@ RULE = ("per observe expression: every history up to the depth bound over "
 EXPLANATION = ("direct exploration; reference = from-scratch interpreter of "
                "the expression over the live object graph (reads __dict__ "
                "only)")
-BOUNDS = {"quick": "29 expression rows (24 expressions + 5 on node classes with a value-based __eq__), depth 4 with dedup (graph shape + "
+BOUNDS = {"quick": "31 expression rows (24 expressions + 5 on node classes with a value-based __eq__ + 2 with a cached-property link), depth 4 with dedup (graph shape + "
                    "notifier fingerprint), late registration at depth<=3",
           "thorough": "depth 5 with dedup, late registration at depth<=4"}
 ASSUMPTIONS = ["dispatch='same'", "pool of 3 objects + materialised lazy "
